@@ -23,12 +23,15 @@ MANIFEST = {
              "by the documented rule (organised by source: flat name, nested path, aliases; dash spelling), with "
              "corollaries for each mode in the property's words (UNDERSCORE keeps, DASH leaves no underscore in generated "
              "names, UNDERSCORE_AND_DASH closed under dashing, WITHOUT_ROOT drops exactly the first component at any "
-             "depth). The model is tied to the code by comparing option-string sets of every field of generated parser "
+             "depth), and that the engine rejects every long spelling outside that set up to argparse's abbreviations "
+             "(c10_no_other_spelling). The model is tied to the code by comparing option-string sets of every field of generated parser "
              "setups, and an independent transcription of the property sentence is evaluated on the real parser together "
              "with one real parse per accepted and per near-miss spelling."),
     "note": ("Trusted: Lean kernel + standard axioms; argparse's option lookup; harness. Modelled not verified: "
-             "field_wrapper.py:565-655, wrapper.py:25-30. 'No other spelling is accepted' is checked on the real parser "
-             "by near-miss probes (not by theorem: it is argparse's lookup)."),
+             "field_wrapper.py:565-655, wrapper.py:25-30. 'No other spelling is accepted' is the theorem "
+             "c10_no_other_spelling over the engine model of argparse's lookup (any table, any surrounding tokens: a long "
+             "spelling that is no prefix of any option string is never accepted; prefixes are argparse's abbreviations), and "
+             "is probed on the real parser by near-miss spellings."),
     "technique": "Lean 4 set-characterisation theorem over all mode combinations + differential check on real parsers",
     "design_ref": "DESIGN.md section 5, C10",
 }
